@@ -11,12 +11,12 @@
 From Coq Require Import List NArith Bool Lia ZifyN ZifyNat ZifyBool.
 From Frugal Require Import Bytes Wire Skip Values Desc Spec Encode Decode Checks.
 From Frugal.gen Require Import Params.
-From Frugal.proofs Require Import SizeExact SkipPut DecodeSafe BytesWire EncodeSpec DecodeRefines.
+From Frugal.proofs Require Import SizeExact SkipPut DecodeSafe BytesWire EncodeSpec DecodeRefines ParamsSplit.
 Import ListNotations.
 Open Scope N_scope.
 
 (* the skipper lemma in the form the Refines section wants it *)
-Lemma skip_premise : params_ok = true ->
+Lemma skip_premise : dec_params_ok = true ->
   forall (w : tv) (rest : list N), wf w = true ->
     (wdepth w < N.to_nat gk_defaultRecursionDepth)%nat -> rest <> [] ->
     gk_skip (put w ++ rest) (code_of w) = SOk (len (put w)).
@@ -211,7 +211,7 @@ Qed.
 
 (* the struct body of the byte-level decoder when every nested value is accepted *)
 Lemma struct_body_top : forall env fuel pool d sd fs rest fs0 h0 cur seen unk,
-  params_ok = true -> env_ok env = true ->
+  dec_params_ok = true -> env_ok env = true ->
   (forall f, In f (sfields sd) -> field_ok env f = true) ->
   wf (WStruct fs []) = true ->
   (need_max (fneed env sd) fs <= d)%nat -> (need_max (fskip env sd) fs <= 63)%nat ->
@@ -245,7 +245,7 @@ Proof.
 Qed.
 
 (* the depth hypotheses of the top-level theorems, unfolded *)
-Lemma top_need : params_ok = true -> forall env sid sd fs raw n,
+Lemma top_need : dec_params_ok = true -> forall env sid sd fs raw n,
   lookup_sd env sid = Some sd ->
   (need env (TStruct sid) (WStruct fs raw) <= S n)%nat ->
   (need_max (fneed env sd) fs < n)%nat.
@@ -255,7 +255,7 @@ Proof.
   change (0 <? 0) with false in Hn. cbv iota in Hn. rewrite Esd in Hn. unfold fneed. lia.
 Qed.
 
-Lemma top_need_eq : params_ok = true -> forall env sid sd fs raw,
+Lemma top_need_eq : dec_params_ok = true -> forall env sid sd fs raw,
   lookup_sd env sid = Some sd ->
   need env (TStruct sid) (WStruct fs raw) = S (S (need_max (fneed env sd) fs)).
 Proof.
@@ -276,7 +276,7 @@ Proof. intros a b. rewrite BytesWire.len_app. lia. Qed.
 
 (* A2, byte-level decoder: the error names the field *)
 Theorem required_enforced_decode : forall env pool sid sd fs rest fs0 h0 cur seen unk,
-  params_ok = true -> env_ok env = true ->
+  dec_params_ok = true -> env_ok env = true ->
   wf (WStruct fs []) = true -> lookup_sd env sid = Some sd ->
   (need env (TStruct sid) (WStruct fs []) <= S (N.to_nat maxDepthLimit))%nat ->
   (skipped_depth env (TStruct sid) (WStruct fs []) <= 63)%nat ->
@@ -303,7 +303,7 @@ Qed.
 
 (* the two readings the property asks for *)
 Corollary required_missing_rejected : forall env pool sid sd fs rest fs0 h0 cur seen unk i,
-  params_ok = true -> env_ok env = true ->
+  dec_params_ok = true -> env_ok env = true ->
   wf (WStruct fs []) = true -> lookup_sd env sid = Some sd ->
   (need env (TStruct sid) (WStruct fs []) <= S (N.to_nat maxDepthLimit))%nat ->
   (skipped_depth env (TStruct sid) (WStruct fs []) <= 63)%nat ->
@@ -321,7 +321,7 @@ Proof.
 Qed.
 
 Corollary required_present_accepted : forall env pool sid sd fs rest fs0 h0 cur seen unk,
-  params_ok = true -> env_ok env = true ->
+  dec_params_ok = true -> env_ok env = true ->
   wf (WStruct fs []) = true -> lookup_sd env sid = Some sd ->
   (need env (TStruct sid) (WStruct fs []) <= S (N.to_nat maxDepthLimit))%nat ->
   (skipped_depth env (TStruct sid) (WStruct fs []) <= 63)%nat ->
@@ -381,7 +381,7 @@ Proof. intros env sid sd fs h Esd Hh. rewrite denote_VT, Esd, Hh. reflexivity. Q
 (* B2: the holder bytes go out verbatim, after the known fields and before
    STOP, and the size walk counts them *)
 Theorem holder_reencoded : forall env sid sd fs h,
-  params_ok = true -> tables_ok = true -> env_ok env = true ->
+  enc_params_ok = true -> tables_ok = true -> env_ok env = true ->
   lookup_sd env sid = Some sd -> sholder sd = true ->
   has_type env (TStruct sid) (VT fs h) = true ->
   append_struct env sid (VT fs h) = put_fields (emitted env sd fs) ++ h ++ [cSTOP]
@@ -417,7 +417,7 @@ Qed.
 
 (* and that struct is well formed when the nested holders are empty *)
 Theorem reemitted_wf : forall env sid sd fs h us,
-  params_ok = true -> env_ok env = true ->
+  enc_params_ok = true -> env_ok env = true ->
   lookup_sd env sid = Some sd ->
   has_type env (TStruct sid) (VT fs h) = true ->
   forallb EncodeSpec.holders_empty fs = true ->
@@ -436,7 +436,7 @@ Qed.
 
 (* one hop: decode into a destination with an empty holder, encode the result *)
 Theorem one_hop : forall env sid sd fs fs0 cur h,
-  params_ok = true -> tables_ok = true -> env_ok env = true ->
+  enc_params_ok = true -> tables_ok = true -> env_ok env = true ->
   lookup_sd env sid = Some sd -> sholder sd = true ->
   absorb_top env sid (WStruct fs []) (VT fs0 []) = AOk (VT cur h) ->
   has_type env (TStruct sid) (VT cur h) = true ->
@@ -454,7 +454,7 @@ Proof.
 Qed.
 
 Corollary one_hop_wf : forall env sid sd fs cur h,
-  params_ok = true -> env_ok env = true ->
+  enc_params_ok = true -> env_ok env = true ->
   lookup_sd env sid = Some sd ->
   wf (WStruct fs []) = true ->
   has_type env (TStruct sid) (VT cur h) = true ->
@@ -558,11 +558,10 @@ Proof.
     pose proof (IHes x Hin e). lia.
 Qed.
 
-Lemma depth_consts : params_ok = true ->
+Lemma depth_consts : depth_ok = true ->
   2 * 48 + 2 <= maxDepthLimit /\ 48 < gk_defaultRecursionDepth.
 Proof.
-  intros HP. unfold params_ok in HP. andb_all.
-  match goal with H : depth_ok = true |- _ => unfold depth_ok in H; andb_all end.
+  intros HP. unfold depth_ok in HP. andb_all.
   repeat match goal with
          | H : (_ <=? _) = true |- _ => apply N.leb_le in H
          | H : (_ <? _) = true |- _ => apply N.ltb_lt in H
@@ -570,7 +569,7 @@ Proof.
   split; assumption.
 Qed.
 
-Lemma shallow_budgets : params_ok = true -> forall env t w,
+Lemma shallow_budgets : depth_ok = true -> forall env t w,
   (wdepth w <= 48)%nat ->
   (need env t w <= S (N.to_nat maxDepthLimit))%nat /\ (skipped_depth env t w <= 63)%nat.
 Proof.
@@ -580,7 +579,7 @@ Qed.
 
 (* C2, first form (through decode_refines) *)
 Theorem shallow_accepted : forall env pool sid fs rest dst,
-  params_ok = true -> env_ok env = true ->
+  dec_params_ok = true -> depth_ok = true -> env_ok env = true ->
   wf (WStruct fs []) = true -> lookup_sd env sid <> None ->
   (exists fs0 h0, dst = VT fs0 h0) ->
   (wdepth (WStruct fs []) <= 48)%nat ->
@@ -592,8 +591,8 @@ Theorem shallow_accepted : forall env pool sid fs rest dst,
   | ABad => True
   end.
 Proof.
-  intros env pool sid fs rest dst HP HE Hwf Hsid Hdst Hd.
-  destruct (shallow_budgets HP env (TStruct sid) (WStruct fs []) Hd) as [Hn Hs].
+  intros env pool sid fs rest dst HP HD HE Hwf Hsid Hdst Hd.
+  destruct (shallow_budgets HD env (TStruct sid) (WStruct fs []) Hd) as [Hn Hs].
   exact (decode_refines (skip_premise HP) env pool sid fs rest dst HP HE Hwf Hsid Hdst Hn Hs).
 Qed.
 
@@ -685,7 +684,7 @@ Section Exact.
   Variable env : senv.
   Variable fuel : nat.
   Variable pool : list N.
-  Hypothesis HP : params_ok = true.
+  Hypothesis HP : dec_params_ok = true.
   Hypothesis HE : env_ok env = true.
 
   Definition exact_at (w : tv) : Prop :=
@@ -891,7 +890,7 @@ Section Exact.
     = dres_of (amap (addseen x) (ab_fields (absorb env) sd fs cur seen unk)) rest.
   Proof.
     intros d sd Hsd.
-    destruct (codes_eqs HP) as (E0 & _).
+    destruct (codes_eqs (dec_enc HP)) as (E0 & _).
     induction fs as [|[id w] fs IH]; intros HF Hwf Hn Hs fl rest cur seen unk x Hl Hfl.
     - destruct fl as [|fl]; [inversion Hfl|].
       cbn [put_fields cat_map app]. rewrite dec_fields_S, E0, N.eqb_refl. reflexivity.
@@ -1070,7 +1069,7 @@ Section Exact.
 End Exact.
 
 (* value level *)
-Theorem decode_type_exact : forall env fuel pool, params_ok = true -> env_ok env = true ->
+Theorem decode_type_exact : forall env fuel pool, dec_params_ok = true -> env_ok env = true ->
   forall w t d rest prior,
     wf w = true -> code_of w = wt t -> ty_ok env t = true -> fixed_size (deref_ty t) = 0 ->
     (need env t w <= d)%nat -> (skipped_depth env t w <= 63)%nat ->
@@ -1090,7 +1089,7 @@ Definition top_dres (a : ares val) (n : N) (rest : list N) : dres (val * N) :=
 
 (* top level: DecodeObject is the reference decoder, errors included; no
    hypothesis on the destination or on the struct id is needed *)
-Theorem decode_exact : forall env pool sid fs rest dst, params_ok = true -> env_ok env = true ->
+Theorem decode_exact : forall env pool sid fs rest dst, dec_params_ok = true -> env_ok env = true ->
   wf (WStruct fs []) = true ->
   (need env (TStruct sid) (WStruct fs []) <= S (N.to_nat maxDepthLimit))%nat ->
   (skipped_depth env (TStruct sid) (WStruct fs []) <= 63)%nat ->
@@ -1119,7 +1118,7 @@ Qed.
 (* A2 in full: whatever the nesting level at which a required field is
    missing, the error names the field the reference decoder names *)
 Corollary required_error_names_field : forall env pool sid fs rest dst i,
-  params_ok = true -> env_ok env = true ->
+  dec_params_ok = true -> env_ok env = true ->
   wf (WStruct fs []) = true ->
   (need env (TStruct sid) (WStruct fs []) <= S (N.to_nat maxDepthLimit))%nat ->
   (skipped_depth env (TStruct sid) (WStruct fs []) <= 63)%nat ->
@@ -1136,7 +1135,7 @@ Qed.
 
 (* B1 for the byte-level decoder *)
 Corollary holder_exact_decode : forall env pool sid sd fs rest fs0 h0 cur h n rest',
-  params_ok = true -> env_ok env = true ->
+  dec_params_ok = true -> env_ok env = true ->
   wf (WStruct fs []) = true -> lookup_sd env sid = Some sd ->
   (need env (TStruct sid) (WStruct fs []) <= S (N.to_nat maxDepthLimit))%nat ->
   (skipped_depth env (TStruct sid) (WStruct fs []) <= 63)%nat ->
@@ -1157,24 +1156,24 @@ Qed.
    reference decoder's, so it is never EDepth, never an error of the skipper,
    never EShort/ENegSize/ESizeExceeds/EUnknownType *)
 Theorem shallow_exact : forall env pool sid fs rest dst,
-  params_ok = true -> env_ok env = true ->
+  dec_params_ok = true -> depth_ok = true -> env_ok env = true ->
   wf (WStruct fs []) = true -> (wdepth (WStruct fs []) <= 48)%nat ->
   decode_object env pool sid (put (WStruct fs []) ++ rest) dst
   = top_dres (absorb_top env sid (WStruct fs []) dst) (len (put (WStruct fs []))) rest.
 Proof.
-  intros env pool sid fs rest dst HP HE Hwf Hd.
-  destruct (shallow_budgets HP env (TStruct sid) (WStruct fs []) Hd) as [Hn Hs].
+  intros env pool sid fs rest dst HP HD HE Hwf Hd.
+  destruct (shallow_budgets HD env (TStruct sid) (WStruct fs []) Hd) as [Hn Hs].
   exact (decode_exact env pool sid fs rest dst HP HE Hwf Hn Hs).
 Qed.
 
 Corollary shallow_never_depth : forall env pool sid fs rest dst,
-  params_ok = true -> env_ok env = true ->
+  dec_params_ok = true -> depth_ok = true -> env_ok env = true ->
   wf (WStruct fs []) = true -> (wdepth (WStruct fs []) <= 48)%nat ->
   decode_object env pool sid (put (WStruct fs []) ++ rest) dst <> DErr EDepth
   /\ forall e, decode_object env pool sid (put (WStruct fs []) ++ rest) dst <> DErr (ESkip e).
 Proof.
-  intros env pool sid fs rest dst HP HE Hwf Hd.
-  rewrite (shallow_exact env pool sid fs rest dst HP HE Hwf Hd).
+  intros env pool sid fs rest dst HP HD HE Hwf Hd.
+  rewrite (shallow_exact env pool sid fs rest dst HP HD HE Hwf Hd).
   destruct (absorb_top env sid (WStruct fs []) dst); cbn [top_dres]; split; try intros e; discriminate.
 Qed.
 
@@ -1199,7 +1198,7 @@ Section Deep.
   Variable env : senv.
   Variable fuel : nat.
   Variable pool : list N.
-  Hypothesis HP : params_ok = true.
+  Hypothesis HP : dec_params_ok = true.
   Hypothesis HE : env_ok env = true.
   Hypothesis NC : forall sd f, In sd env -> In f (sfields sd) -> fnocopy f = false.
 
@@ -1418,7 +1417,7 @@ Section Deep.
     = DErr EDepth.
   Proof.
     intros d sd Hsd.
-    destruct (codes_eqs HP) as (E0 & _).
+    destruct (codes_eqs (dec_enc HP)) as (E0 & _).
     induction fs as [|[id w] fs IH]; intros HF Hwf Hs fl rest cur seen unk dseen res Hab Hd Hl Hfl.
     - cbn [need_max] in Hd. lia.
     - destruct fl as [|fl]; [inversion Hfl|]. cbn [length] in Hfl.
@@ -1553,7 +1552,7 @@ Section Deep.
 End Deep.
 
 (* C4, value level *)
-Theorem deep_rejected : forall env fuel pool, params_ok = true -> env_ok env = true ->
+Theorem deep_rejected : forall env fuel pool, dec_params_ok = true -> env_ok env = true ->
   (forall sd f, In sd env -> In f (sfields sd) -> fnocopy f = false) ->
   forall w t d rest prior v,
     wf w = true -> code_of w = wt t -> ty_ok env t = true -> fixed_size (deref_ty t) = 0 ->
@@ -1568,7 +1567,7 @@ Proof.
 Qed.
 
 (* so, for a value the reference decoder accepts, the budget decides *)
-Corollary depth_threshold : forall env fuel pool, params_ok = true -> env_ok env = true ->
+Corollary depth_threshold : forall env fuel pool, dec_params_ok = true -> env_ok env = true ->
   (forall sd f, In sd env -> In f (sfields sd) -> fnocopy f = false) ->
   forall w t d rest prior v,
     wf w = true -> code_of w = wt t -> ty_ok env t = true -> fixed_size (deref_ty t) = 0 ->
@@ -1589,7 +1588,7 @@ Qed.
 
 (* C4, top level *)
 Theorem deep_rejected_top : forall env pool sid fs rest dst v,
-  params_ok = true -> env_ok env = true ->
+  dec_params_ok = true -> env_ok env = true ->
   (forall sd f, In sd env -> In f (sfields sd) -> fnocopy f = false) ->
   wf (WStruct fs []) = true ->
   absorb_top env sid (WStruct fs []) dst = AOk v ->
@@ -1626,7 +1625,7 @@ Qed.
 (* the whole of C15 for a message the reference decoder accepts: accepted
    iff the budget suffices, else EDepth *)
 Corollary depth_threshold_top : forall env pool sid fs rest dst v,
-  params_ok = true -> env_ok env = true ->
+  dec_params_ok = true -> env_ok env = true ->
   (forall sd f, In sd env -> In f (sfields sd) -> fnocopy f = false) ->
   wf (WStruct fs []) = true ->
   absorb_top env sid (WStruct fs []) dst = AOk v ->
